@@ -312,6 +312,13 @@ func (gb *gcpBalancer) UpdateClientConnState(ccs balancer.ClientConnState) error
 		gb.initializeConfig(cfg)
 	}
 
+	// Replacement SubConns of the refreshes in progress will join the pool soon
+	// (also when the pool itself is empty at the moment).
+	for sc := range gb.refreshingScRefs {
+		sc.UpdateAddresses(addrs)
+		sc.Connect()
+	}
+
 	if len(gb.scRefs) == 0 {
 		// The mutex is already held here, so newSubConn() cannot be used.
 		gb.enforceMinSize()
@@ -322,11 +329,6 @@ func (gb *gcpBalancer) UpdateClientConnState(ccs balancer.ClientConnState) error
 		// TODO(weiranf): update streams count when new addrs resolved?
 		scRef.subConn.UpdateAddresses(addrs)
 		scRef.subConn.Connect()
-	}
-	// Replacement SubConns of the refreshes in progress will join the pool soon.
-	for sc := range gb.refreshingScRefs {
-		sc.UpdateAddresses(addrs)
-		sc.Connect()
 	}
 
 	return nil
